@@ -108,6 +108,11 @@ def run_real(ctx, binary, cases, name, test="TestVerifSyncDir", par=None):
     inp, outp, tmp = os.path.join(d, "cases.ndjson"), os.path.join(d, "obs.ndjson"), os.path.join(d, "tmp")
     os.makedirs(tmp)
     common.write_ndjson(inp, cases)
+    # osutil's unsafe-I/O (no fsync) switch for tests is keyed on argv[0] matching .*/.*go-build.*/.*\.test
+    import shutil
+    gb = os.path.join(ctx.subdir("go-build"), os.path.basename(binary))
+    shutil.copy2(binary, gb)
+    binary = gb
     rc, o = goharness.run_test_bin(ctx, binary, test, env={"VERIF_IN": inp, "VERIF_OUT": outp, "VERIF_TMP": tmp,
                                                           "VERIF_PAR": par or ctx.pick(4, 8)}, timeout=1500)
     goharness.check_driver(rc, o, "syncdir driver")
